@@ -1398,7 +1398,31 @@ def buf_rules(chk, program):
     return f, P, marker
 
 def ser_const(chk, program, P, marker, rule='SER-CONST'):
-    """marker, packet length and header check agree among client, encode_usb and decode_usb"""
+    """marker, packet length and header check agree among client, encode_usb and decode_usb.  Decided on the interpreted writer and reader
+    (what the writer's packet starts with and how long it is; which packets the reader lets through); the syntactic reading is the fallback"""
+    from . import wire, absint as _A
+    D = 'nmea2000/decoder.py'
+    if isinstance(marker, bytes) and len(marker) == 2 and isinstance(P, int):
+        try:
+            res, rec = wire.encode_with(program, 'encode_usb', [wire.frame_bytes(8)])
+            pk = res.items[0]
+            wm = bytes(x[1] for x in pk.items[:2]) if all(x[0] == 'c' for x in pk.items[:2]) else None
+            acc = lambda head, length: wire.usb_reader_semantics(program, 8, head, length)['decoded_when_equal']
+            accepts = acc(tuple(marker), P)
+            wrong = [w for w in (((marker[0] ^ 0xff), marker[1]), (marker[0], (marker[1] ^ 0xff)), (marker[1], marker[0])) if w != tuple(marker) and acc(w, P)]
+            wrong_len = [l for l in (P - 1, P + 1) if acc(tuple(marker), l)]
+        except (_A.Unknown, _A.RaiseSignal, AttributeError, IndexError, TypeError) as u:
+            chk.unit('ser_const_not_interpretable', str(u))
+        else:
+            enc = program.fn('encoder', 'NMEA2000Encoder.encode_usb')
+            dec = program.fn('decoder', 'NMEA2000Decoder.decode_usb')
+            chk.check(wm == marker, rule, 'marker::client-vs-encode_usb', file='nmea2000/encoder.py', line=enc.lineno, expected=marker.hex(), found=wm.hex() if wm else 'not constant')
+            chk.check(len(pk) == P, rule, 'length::client-vs-encode_usb', file='nmea2000/encoder.py', line=enc.lineno, expected=P, found=len(pk), nontrivial=False)
+            chk.check(accepts and not wrong, rule, 'marker::client-vs-decode_usb', file=D, line=dec.lineno, expected=f"the reader lets through packets that start with {marker.hex()} and no others",
+                      found='ok' if accepts and not wrong else {'accepts_client_marker': accepts, 'also_accepts': [bytes(w).hex() for w in wrong]})
+            chk.check(accepts and not wrong_len, rule, 'length::client-vs-decode_usb', file=D, line=dec.lineno, expected=f"the reader lets through {P}-byte packets only",
+                      found='ok' if accepts and not wrong_len else {'accepts_client_length': accepts, 'also_accepts_lengths': wrong_len})
+            return
     dec = program.fn('decoder', 'NMEA2000Decoder.decode_usb')
     D = 'nmea2000/decoder.py'
     pname = [a.arg for a in dec.args.args][1]
@@ -1428,10 +1452,30 @@ def ser_const(chk, program, P, marker, rule='SER-CONST'):
               expected=marker.hex() if isinstance(marker, bytes) else marker, found=first[0].hex() if first else None)
 
 def csum_dom(chk, program, rule='CSUM-DOM'):
-    """in decode_usb the checksum comparison dominates the call to _decode"""
+    """in decode_usb the checksum comparison dominates the call to _decode.  Decided on the interpreted reader (wire.usb_reader_semantics:
+    symbolic packet, the undecidable comparison answered both ways); the CFG reading below is the fallback when the reader is not interpretable"""
     from .cfg import CFG as _CFG
+    from . import wire, absint as _A
     dec = program.fn('decoder', 'NMEA2000Decoder.decode_usb')
     D = 'nmea2000/decoder.py'
+    sems = []
+    try:
+        for n in (8, 3, 0):
+            sems.append((n, wire.usb_reader_semantics(program, n)))
+    except _A.Unknown as u:
+        sems = None
+        chk.unit('decode_usb_not_interpretable', str(u))
+    if sems is not None:
+        bad_dom = [n for n, r in sems if not (r['decoded_when_equal'] and not r['decoded_when_different'] and r['asked_different'] >= 1)]
+        chk.check(not bad_dom, rule, 'decode_usb::checksum-before-decode', file=D, line=dec.lineno, func='decode_usb',
+                  expected='_decode is reached when the computed checksum equals the stored byte and never when it differs',
+                  found='dominated' if not bad_dom else {f"data length {n}": {k: v for k, v in r.items() if k.startswith('decoded') or k.startswith('asked_')} for n, r in sems if n in bad_dom},
+                  detail='' if not bad_dom else 'a packet with a wrong checksum can reach _decode')
+        bad_cov = [n for n, r in sems if not r['compares_sum_2_18_with_byte_19']]
+        chk.check(not bad_cov, 'CSUM-COVER' if rule == 'CSUM-DOM' else rule, 'decode_usb::compares-sum-of-2..18-with-byte-19', file=D, line=dec.lineno, func='decode_usb',
+                  expected='the reader compares (sum of packet bytes 2..18) mod 256 with packet byte 19', found='ok' if not bad_cov else {f"data length {n}": r['described'] for n, r in sems if n in bad_cov},
+                  detail='' if not bad_cov else 'a byte the comparison does not cover can be corrupted without the packet being rejected')
+        return
     g = _CFG(dec)
     pname = [a.arg for a in dec.args.args][1]
     calls = nodes_calling(g, lambda c: is_self_call(c, '_decode'))
